@@ -168,6 +168,7 @@ func C02(p *an.Prog, r *an.Report) {
 	// count limits as guard regions: 1..16 entries, <=16 leases/keys
 	c02Counts(p, r)
 	c02SigTypeSource(p, r, "C02.L5")
+	c01DistinctElements(p, r, "C02.L7") // a list of N encoded elements is read as N distinct elements
 	c11Threshold(p, r) // L6 (same rule as C11.M5): every well-formed final pair, down to 4 bytes, is read
 
 	// L3
